@@ -639,10 +639,15 @@ func (p *RefPeer) sendPreamble() {
 	if c.Interested {
 		p.Send(refwire.Interested{})
 	}
+	unchokeIfWanted := func() {
+		if !c.ChokeUninterested || p.SysInterested {
+			p.Unchoke()
+		}
+	}
 	if c.UnchokeAfter == 0 {
-		p.Unchoke()
+		unchokeIfWanted()
 	} else if c.UnchokeAfter > 0 {
-		p.After(c.UnchokeAfter, p.Unchoke)
+		p.After(c.UnchokeAfter, unchokeIfWanted)
 	}
 }
 
@@ -778,7 +783,7 @@ func (p *RefPeer) receive(m refwire.Message) {
 		p.event("unchoked")
 	case refwire.Interested:
 		p.SysInterested = true
-		if p.Cfg.ChokeUninterested && p.ChokingSys && p.everUnchoked {
+		if p.Cfg.ChokeUninterested && p.ChokingSys && p.Cfg.UnchokeAfter >= 0 {
 			p.After(time.Duration(p.W.st.Choice(500))*time.Millisecond, func() {
 				if p.SysInterested && p.ChokingSys {
 					p.Unchoke()
